@@ -269,6 +269,7 @@ type RpEv struct {
 	Terminal []byte
 	Platform []byte
 	Seq      int64 // global order of callbacks in this process
+	FramesBefore int // read callbacks: how many frames the terminal side had read from the socket when the callback ran
 	Msg      *jt808.JTMessage
 }
 
@@ -285,6 +286,7 @@ type RpRec struct {
 	Problem []string // read-before-write violations noticed while recording
 	seen    map[*jt808.JTMessage]bool
 	seenH   map[*jt808.JTMessage]bool
+	frames  func() int // frames read back from the socket so far (set by RpPlay)
 }
 
 func newRpRec() *RpRec {
@@ -297,6 +299,14 @@ func (r *RpRec) add(reader bool, kind string, m *service.Message, withPlatform b
 		ev.ID, ev.Serial = m.JTMessage.Header.ID, m.JTMessage.Header.SerialNumber
 	}
 	ev.Terminal = append([]byte{}, m.ExtensionFields.TerminalData...)
+	if reader {
+		r.mu.Lock()
+		fn := r.frames
+		r.mu.Unlock()
+		if fn != nil {
+			ev.FramesBefore = fn()
+		}
+	}
 	if withPlatform {
 		ev.Platform = append([]byte{}, m.ExtensionFields.PlatformData...)
 	}
@@ -528,8 +538,15 @@ func (s *RpSrv) RpPlay(items []RpItem, flush int) *RpResult {
 	}
 	s.dial.Unlock()
 	cl := &rpClient{conn: conn}
+	rec.mu.Lock()
+	rec.frames = func() int {
+		cl.mu.Lock()
+		defer cl.mu.Unlock()
+		return len(cl.frames)
+	}
+	rec.mu.Unlock()
 	go cl.readLoop()
-	const wait = 4 * time.Second
+	const wait = 8 * time.Second
 	var pend []byte
 	npend := 0
 	flushNow := func() {
